@@ -17,7 +17,7 @@ from vlib import common as C
 PID = "C13"
 UNIT = "iter"
 
-PINNED = ['fuel_monotone', 'denotation_unique', 'list_cursor', 'range_cursor', 'string_cursor', 'generator_source', 'each_refines', 'keep_refines', 'enumerate_refines', 'skip_refines', 'take_refines', 'take_while_refines', 'step_refines', 'chain_refines', 'zip_refines_partial', 'intersperse_refines', 'chunks_refines_partial', 'windows_refines_partial', 'composition', 'composition_with_arguments', 'consumers_are_folds', 'consumer_loop_exact', 'to_list_is_the_sequence', 'find_stops_at_first_hit', 'failing_generator_source', 'consume_propagates_error', 'error_pulled_iff_no_early_exit', 'reversed_list_is_rev', 'reversed_range_is_rev', 'reversed_twice', 'byte_cursor_bidirectional', 'list_cursor_bidirectional', 'reversed_of_bidirectional', 'bidirectional_is_forward', 'reversed_bytes_is_rev', 'pulls_are_a_prefix', 'pulls_prefix_of_source', 'pull_count_bounded', 'one_next_demand', 'pull_count_per_output', 'generator_free_steps_pull_nothing', 'construction_pulls_nothing']
+PINNED = ['fuel_monotone', 'denotation_unique', 'list_cursor', 'range_cursor', 'string_cursor', 'generator_source', 'each_refines', 'keep_refines', 'enumerate_refines', 'skip_refines', 'take_refines', 'take_while_refines', 'step_refines', 'chain_refines', 'zip_refines_partial', 'intersperse_refines', 'chunks_refines_partial', 'windows_refines_partial', 'composition', 'composition_with_arguments', 'consumers_are_folds', 'consumer_loop_exact', 'to_list_is_the_sequence', 'find_stops_at_first_hit', 'failing_generator_source', 'consume_propagates_error', 'error_pulled_iff_no_early_exit', 'reversed_list_is_rev', 'reversed_range_is_rev', 'reversed_twice', 'byte_cursor_bidirectional', 'list_cursor_bidirectional', 'reversed_of_bidirectional', 'bidirectional_is_forward', 'reversed_bytes_is_rev', 'pulls_are_a_prefix', 'pulls_prefix_of_source', 'pull_count_bounded', 'one_next_demand', 'pull_count_per_output', 'generator_free_steps_pull_nothing', 'construction_pulls_nothing', 'copy_is_the_state', 'copy_yields_remainder']
 
 # ----------------------------------------------------------------------------------------------
 # values: python int / str (one char) / tuple / list / None / bool
@@ -247,6 +247,8 @@ def prelude():
     for name, (cid, _, body, _f) in FOLDS.items():
         lines += [f"{name} = |a, b|", f"  emit 'cb', ({cid}, (a, b))", f"  {body}"]
     lines += ["sepf = ||", "  emit 'cb', (13, null)", "  99"]
+    # one next() on iterator variable number s, reported as (s, value) or (s,) for None
+    lines += ["nx = |s, i|", "  r = i.next()", "  emit 'out', if r == null then (s,) else (s, r.get())"]
     return "\n".join(lines) + "\n"
 
 
@@ -507,6 +509,8 @@ def spec_result(case):
         return v_canon(sum(1 for _ in it))
     if cname == "unpack":
         return "n"
+    if cname == "script":
+        return "n"
     if cname == "nexts":
         return None     # the outputs are events; checked by spec_nexts
     raise ValueError(cname)
@@ -569,6 +573,15 @@ def consumer_koto(c):
         targets = ", ".join(f"v{i}" if m == "n" else "_" for i, m in enumerate(arg))
         outs = "".join(f"emit 'out', v{i}\n" for i, m in enumerate(arg) if m == "n")
         return f"it = it.iter()\n{targets} = it\n{outs}null"
+    if name == "script":
+        lines = ["it0 = it.iter()"]
+        for op in arg:
+            if op[0] == "n":
+                lines.append(f"nx {op[1]}, it{op[1]}")
+            else:
+                lines.append(f"it{op[2]} = copy it{op[1]}")
+        lines.append("null")
+        return "\n".join(lines)
     if name == "nexts":
         ds = ", ".join("0" if d == "f" else "1" for d in arg)
         if len(arg) == 1:
@@ -598,6 +611,8 @@ def consumer_coq(c):
         return "(CFor false)" if arg == "named" else "(CFor true)"
     if name == "unpack":
         return "(CUnpack [" + "; ".join("true" if m == "n" else "false" for m in arg) + "])"
+    if name == "script":
+        return "(CScript [" + "; ".join(f"OpNext {op[1]}" if op[0] == "n" else f"OpCopy {op[1]} {op[2]}" for op in arg) + "])"
     if name == "nexts":
         return "(CNexts [" + "; ".join("Fwd" if d == "f" else "Bwd" for d in arg) + "])"
     raise ValueError(name)
@@ -614,8 +629,13 @@ def consumer_ok(c, t):
 
 
 def case_koto(case):
-    return (PRELUDE + "it = " + pipeline_koto(case["src"], case["stages"]) + "\nemit 'built'\n"
-            + consumer_koto(case["consumer"]) + "\n")
+    pipe = pipeline_koto(case["src"], case["stages"])
+    if case.get("wrap"):
+        # the pipeline lives in a register of a generator's frame; copying the generator copies it
+        head = "wrapg = ||\n  for v in " + pipe + "\n    yield v\nit = wrapg()"
+    else:
+        head = "it = " + pipe
+    return PRELUDE + head + "\nemit 'built'\n" + consumer_koto(case["consumer"]) + "\n"
 
 
 def case_coq(case):
@@ -706,7 +726,7 @@ def finite(stages):
     return not open_cycle
 
 
-def mk(origin, src, stages, consumer):
+def mk(origin, src, stages, consumer, wrap=False):
     # every tracing generator of a case gets its own id
     sts = []
     for i, st in enumerate(stages):
@@ -715,12 +735,15 @@ def mk(origin, src, stages, consumer):
             o["id"] = 2 + i
             st = [st[0], o]
         sts.append(st)
-    return {"origin": origin, "src": src, "stages": sts, "consumer": consumer}
+    c = {"origin": origin, "src": src, "stages": sts, "consumer": consumer}
+    if wrap:
+        c["wrap"] = True
+    return c
 
 
 def valid(src, stages, consumer):
     t = typed(src, stages)
-    if t is None or not finite(stages) or not consumer_ok(consumer, t):
+    if t is None or not (finite(stages) or consumer[0] == "script") or not consumer_ok(consumer, t):
         return False
     # the generator ids of `other` sources must not collide with the main source's
     return True
@@ -810,6 +833,36 @@ def gen_cases(tier, seed):
             for c in err_consumers:
                 if valid(srcs[19], [[nm, o]], c):
                     cases.append(mk("err-d1", srcs[19], [[nm, o]], c))
+    # copies: advance k pulls (past exhaustion / wrap-around), copy, copy the copy, consume all three interleaved
+    def copy_ops(k):
+        ops = [["n", 0]] * k + [["c", 0, 1], ["n", 0], ["n", 1], ["n", 1], ["n", 0], ["c", 1, 2], ["n", 2], ["n", 1], ["n", 0],
+                                ["n", 2], ["n", 0], ["n", 0], ["n", 1], ["n", 1], ["n", 2]]
+        return ["script", ops]
+    csrc = {"k": "tuple", "v": VALS[:3]}
+    gsrc = {"k": "gen", "id": 1, "of": {"k": "tuple", "v": VALS[:3]}}
+    cstages = stages + [["cycle", None]]
+    kmax = 2 * 3 + 3
+    rng3 = C.Rng(seed * 31337 + 5)
+    for st in cstages:
+        e = expand([st])
+        for k in range(0, kmax + 1):
+            if valid(csrc, e, copy_ops(k)) and reversible(csrc, e) is not None:
+                cases.append(mk("copy-d1", csrc, e, copy_ops(k)))
+        for k in ((1, 4, 7) if tier == "quick" else range(0, kmax + 1)):
+            if valid(csrc, e, copy_ops(k)) and reversible(csrc, e) is not None:
+                cases.append(mk("copy-d1-in-generator", csrc, e, copy_ops(k), wrap=True))
+            if valid(gsrc, e, copy_ops(k)) and reversible(gsrc, e) is not None:
+                cases.append(mk("copy-d1-generator-source", gsrc, e, copy_ops(k)))
+    for a in cstages:
+        for b in cstages:
+            if tier == "quick" and not rng3.chance(1, 8):
+                continue
+            e = expand([a, b])
+            if reversible(csrc, e) is None:
+                continue
+            for k in ((rng3.below(kmax + 1), rng3.below(kmax + 1)) if tier == "quick" else range(0, kmax + 1)):
+                if valid(csrc, e, copy_ops(k)):
+                    cases.append(mk("copy-d2", csrc, e, copy_ops(k), wrap=rng3.chance(1, 4)))
     # depth 2: every pair of stages x 2 sources x {to_list, nexts}
     two = [srcs[24]] if tier == "quick" else [srcs[24], srcs[16], srcs[19], srcs[10], srcs[17], srcs[18]]
     rng2 = C.Rng(seed * 7919 + 13)
@@ -889,7 +942,8 @@ def d_predicates(case, r):
             inner = e[1][2:-1]
             gid, v = inner.split(",", 1)
             pulls.setdefault(int(gid[1:]), []).append(v)
-    for gid, got in pulls.items():
+    has_copy = case["consumer"][0] == "script" and any(op[0] == "c" for op in case["consumer"][1])
+    for gid, got in ([] if has_copy else pulls.items()):
         want = [v_canon(x) for x in traced.get(gid, [])]
         if got != want[:len(got)]:
             fails.append(f"L2 pulls of source {gid} are {got}: not an in-order duplicate-free prefix of its elements {want}")
@@ -917,6 +971,28 @@ def d_predicates(case, r):
             gotn = [e for e in ev if e[0] in ("out", "none")]
             if gotn != wantn:
                 fails.append(f"S2 the values seen by `{cn} {ca}` {gotn} differ from the mathematical definition {wantn}")
+        if case["consumer"][0] == "script" and not has_error_potential(case) and reversible(case["src"], case["stages"]) is not None:
+            ops = case["consumer"][1]
+            seq = iter(src_items(case["src"]))
+            for st in case["stages"]:
+                seq = spec_stage(st, seq)
+            seq = list(itertools.islice(seq, sum(1 for op in ops if op[0] == "n") + 1))
+            pos = {0: 0}
+            wantn = []
+            for op in ops:
+                if op[0] == "n":
+                    p_ = pos[op[1]]
+                    if p_ < len(seq):
+                        wantn.append(["out", v_canon((op[1], seq[p_]))])
+                        pos[op[1]] = p_ + 1
+                    else:
+                        wantn.append(["out", v_canon((op[1],))])
+                else:
+                    pos[op[2]] = pos[op[1]]        # a copy continues from where its original is, independently
+            gotn = [e for e in ev if e[0] == "out"]
+            if gotn != wantn:
+                fails.append(f"C1 original / copies {gotn} differ from the mathematical definition (every copy yields the "
+                             f"remainder from the point of the copy, independently) {wantn}")
         if case["consumer"][0] == "nexts":
             wantn = spec_nexts(case)
             if wantn is not None:
@@ -935,6 +1011,12 @@ def d_predicates(case, r):
     if r["result"].startswith("EThrown") and not threw:
         fails.append(f"E2 result {r['result']} but nothing threw")
     return fails
+
+
+def in_c13c(case):
+    """copying a peekable (peekable.rs derives KotoCopy from Clone: the KIterator handle is cloned, not make_copy'd)"""
+    return (case["consumer"][0] == "script" and any(op[0] == "c" for op in case["consumer"][1])
+            and any(st[0] == "peekable" for st in case["stages"]))
 
 
 def nontrivial(case, r):
@@ -1122,6 +1204,7 @@ def run(tier, seed):
         chk.violation("harness", {"kind": "obligation", "correspondence": "kh_iter crashed", "log": out[-2000:]}, no_input=True)
         return chk.finish("n/a")
 
+    c13c_seen = []
     dist = {}
     stage_hist = {}
     d_fail = []
@@ -1138,10 +1221,26 @@ def run(tier, seed):
             d_fail.append((i, ["S0 the pipeline did not finish within 3 s (every generated pipeline is finite)"]))
             continue
         fails = d_predicates(c, r)
+        if in_c13c(c):
+            # finding C13c: the copy of a peekable shares the inner iterator with the original; the owned-tree model
+            # cannot express that, so these cases are neither compared with the model nor allowed to alarm on C1
+            if any(f.startswith("C1") for f in fails):
+                c13c_seen.append(i)
+            fails = [f for f in fails if not f.startswith("C1")]
+            if fails:
+                d_fail.append((i, fails))
+            chk.count_case(json.dumps([c["src"], c["stages"], c["consumer"]]), nontrivial(c, r))
+            continue
         if fails:
             d_fail.append((i, fails))
         chk.count_case(json.dumps([c["src"], c["stages"], c["consumer"]]), nontrivial(c, r))
         todo.append(i)
+    if c13c_seen:
+        i0 = min(c13c_seen, key=lambda i: len(str(cases[i])))
+        chk.known("C13c the copy of a peekable iterator is not independent of the original (Peekable derives KotoCopy from "
+                  "Clone, which shares the inner KIterator): e.g. `p = (1,2,3,4).peekable(); q = copy p; p.next(); p.next(); "
+                  f"q.next()` gives 3; {len(c13c_seen)} generated cases, smallest "
+                  f"{pipeline_koto(cases[i0]['src'], cases[i0]['stages'])}")
     for i, r in panics:
         d_fail.append((i, [f"P0 the runtime panicked: {r['panic']} at {r.get('at')}"]))
 
